@@ -187,7 +187,51 @@ FINITE = [
     Finite("shipped-scheme-lists", _literal_scheme_lists, "every literal scheme list in apps.py / hosts.py / ext.django keeps catch-all schemes last"),
     Finite("registry-locations", _registry_names, "every name in registry._locations is defined by the module it points to"),
 ]
+# ---- registry look-ups never add names: an alias spelling resolves to the canonical entry and leaves the table as it was -------
+import z3  # noqa: E402
+
+from pyvc.contract import Const, Contract  # noqa: E402
+from pyvc.values import SDict, SObj, SStub  # noqa: E402
+
+
+def _reg_setup(loaded):
+    def setup(it, args):
+        handler = SObj("<sha256_crypt handler>", is_class=True, fields={"name": "sha256_crypt"})
+        table = SDict({"sha256_crypt": handler} if loaded else {})
+        registered = []
+
+        def register(i, a, k):
+            registered.append((i.resolve(a[0]), k.get("_attr")))
+            table.items[k.get("_attr") or "sha256_crypt"] = a[0]
+
+        g = it.genv.vars
+        g["_handlers"] = table
+        g["_locations"] = SDict({"sha256_crypt": "passlib.handlers.sha2_crypt"})
+        g["register_crypt_handler"] = SStub(register, "register_crypt_handler")
+        g["is_crypt_handler"] = SStub(lambda i, a, k: True, "is_crypt_handler")
+        g["__import__"] = SStub(lambda i, a, k: SObj("module " + str(i.resolve(a[0])), fields={"sha256_crypt": handler}), "__import__")
+        it.run.ghost.update({"table": table, "handler": handler, "registered": registered})
+        return None
+
+    return setup
+
+
+def _reg_post(it, env):
+    g = it.run.ghost
+    return z3.BoolVal(it.resolve(env.lookup("result")) is g["handler"] and set(g["table"].items) == {"sha256_crypt"} and all(attr == "sha256_crypt" for _, attr in g["registered"]))
+
+
 CONTRACTS = []
+for _spelling in ("sha256_crypt", "SHA256-CRYPT", "sha256-crypt", "Sha256_Crypt"):
+    for _loaded in (True, False):
+        CONTRACTS.append(Contract(
+            f"get_crypt_handler[{_spelling!r}, {'loaded' if _loaded else 'not yet loaded'}]", "passlib/registry.py::get_crypt_handler",
+            params={"name": Const(_spelling), "default": Const(SObj("_UNSET"))},
+            setup=_reg_setup(_loaded),
+            globals={"warn": SStub(lambda i, a, k: None, "warn"), "_UNSET": SObj("_UNSET sentinel")},
+            ensures=[("every spelling resolves to the one canonical entry; the registry (= what list_crypt_handlers() and passlib.hash expose) gains no alias name", _reg_post)],
+            descr="canonical and legacy spellings of a registered name, handler loaded or not",
+        ))
 BOUNDED = [Bounded("c17", "harness/c17.py", descr="every exported context x every scheme x generated hashes", timeout=900)]
 
 MUTANTS = [
@@ -196,4 +240,5 @@ MUTANTS = [
     ("htpasswd context: default not among schemes", A, "        default=htpasswd_defaults[\"portable_apache_22\"],", "        default=\"sha1_crypt\",", "refute"),
     ("apps: plaintext first in a list", "passlib/apps.py", "    schemes=[\"bcrypt\", \"phpass\", \"bsdi_crypt\"],", "    schemes=[\"plaintext\", \"bcrypt\", \"phpass\", \"bsdi_crypt\"],", "refute"),
     ("registry: location points to the wrong module", R, "    apr_md5_crypt=\"passlib.handlers.md5_crypt\",", "    apr_md5_crypt=\"passlib.handlers.sha1_crypt\",", "refute"),
+    ("get_crypt_handler caches the handler under the alias spelling", "passlib/registry.py", "        name = alt\n", "        orig, name = name, alt\n        if name in _handlers:\n            _handlers[orig] = _handlers[name]\n", "refute", "get_crypt_handler"),
 ]
